@@ -177,6 +177,9 @@ func runC08(r *Rand, tier string, o *Out) {
 		if len(enc) > 0 {
 			check("reader", "signature-driven reader, "+codecWhy(t), "rd.read", sigh, enc, "")
 			check("reflect", "reflection decoder, "+codecWhy(t), "dec.reflect", sigh, enc, "")
+			if strings.ContainsAny(t.String(), "lL") && !strings.Contains(t.String(), "<") {
+				check("reflect", "reflection decoder with int / uint, "+codecWhy(t), "dec.reflectp", sigh, enc, "")
+			}
 		}
 		// a dynamic value
 		g := genGVal(r, 2)
